@@ -141,9 +141,20 @@ package parser
 //@ loop 0 invariant s.line >= old(s.line) && (s.line == old(s.line) ==> s.lineHead == old(s.lineHead))
 //@ loop 0 decreases len(s.src) - s.offset
 
+// C03 (literals denote exactly what is written): the text scanNumber hands to toNumber IS the source text of the numeral,
+// rune for rune, in the spelling toNumber's contract classifies: an upper-case exponent marker E is written e, the
+// prefixes 0X / 0B are written 0x / 0b, nothing else is changed, dropped or added; a plain numeral consists of digits,
+// '.', 'e' and exponent signs only. (That string(result) has exactly these runes is Go's conversion, not re-proved.)
+//@ spec fun normE(c int) int = ite(c == 69, 101, c)
+//@ spec fun numRune(c int) bool = (48 <= c && c <= 57) || c == 46 || c == 101 || c == 43 || c == 45
+//@ spec fun hexRune(c int) bool = (48 <= c && c <= 57) || (97 <= c && c <= 102) || (65 <= c && c <= 70)
 //@ func (*Scanner).scanNumber
 //@ props C15
 //@ requires scanInv(s)
+//@ requires [C03] atdigit: s.offset < len(s.src) && 48 <= s.src[s.offset] && s.src[s.offset] <= 57
+//@ loop 0 invariant [C03] hextext: len(result) == s.offset - old(s.offset) && len(result) >= 2 && result[0] == 48 && result[1] == 120 && s.src[old(s.offset)] == 48 && (s.src[old(s.offset)+1] == 120 || s.src[old(s.offset)+1] == 88) && (forall k int :: 2 <= k && k < len(result) ==> result[k] == s.src[old(s.offset)+k] && hexRune(result[k]))
+//@ loop 1 invariant [C03] bintext: len(result) == s.offset - old(s.offset) && len(result) >= 2 && result[0] == 48 && result[1] == 98 && s.src[old(s.offset)] == 48 && (s.src[old(s.offset)+1] == 98 || s.src[old(s.offset)+1] == 66) && (forall k int :: 2 <= k && k < len(result) ==> result[k] == s.src[old(s.offset)+k] && (result[k] == 48 || result[k] == 49))
+//@ loop 2 invariant [C03] dectext: len(result) == s.offset - old(s.offset) && (forall k int :: 0 <= k && k < len(result) ==> result[k] == normE(s.src[old(s.offset)+k]) && numRune(result[k]))
 //@ modifies s.offset, s.lineHead, s.line
 //@ ensures inv: scanInv(s)
 //@ ensures [C03 C15] coupled: s.line >= old(s.line) && (s.line == old(s.line) ==> s.lineHead == old(s.lineHead))
